@@ -7,6 +7,7 @@ import (
 	"errors"
 	"fmt"
 	"io"
+	"math"
 	"testing"
 	"time"
 
@@ -197,7 +198,8 @@ func genLen(t *rapid.T) int {
 func genStream(t *rapid.T) StreamCase {
 	c := StreamCase{Helper: rapid.SampledFrom([]string{"ReadAtMost", "ReadAtMost", "ReadAll", "CopyData", "CopyN", "CopyN", "NewByteReader", "ReaderFrom", "WriteString"}).Draw(t, "helper"), Len: genLen(t), ReadErrAt: -1, WriteErr: -1, CancelAt: -1}
 	l := int64(c.Len)
-	c.Max = rapid.SampledFrom([]int64{-1, 0, 1, l - 1, l, l + 1, 2 * l, l / 2}).Draw(t, "max")
+	// (the largest maximum there is: "at most" with nothing to hold back; a maximum is a bound, not an amount to set aside)
+	c.Max = rapid.SampledFrom([]int64{-1, 0, 1, l - 1, l, l + 1, 2 * l, l / 2, math.MaxInt64}).Draw(t, "max")
 	c.BufCap = rapid.SampledFrom([]int64{-1, 0, 1, 512, l, l + 1}).Draw(t, "bufcap")
 	if c.BufCap > 1<<21 {
 		c.BufCap = 1 << 21
